@@ -58,6 +58,7 @@ DIMS = {
     "lazy_macro": ["none", "td", "t"],
     "wrap": ["provider", "sub_provider_component", "plain_subcontext_function"],
     "table_size": ["none", "0", "1", "2+"],      # number of strings of the used units
+    "ns_name": ["none", "identifier", "dashed"],  # configured namespace names of the used units (`user-profile` is not an identifier)
 }
 EMPTY_VALUES = {"units": "0", "hist": "none", "touchkind": "none", "mix": "-", "cls_pos": "none", "access": "none", "table_size": "none"}
 
@@ -95,6 +96,12 @@ def infeasible(A, a, B, b):
         return "a lazy access uses a unit lazily"
     if g("lazy_macro") == "none" and g("access") in ("lazy_only", "both"):
         return "a lazy access uses a unit lazily"
+    if g("ns_name") not in (None, "none") and (g("id") == "null" or any(g(d) == e for d, e in EMPTY_VALUES.items())):
+        return "a namespace name belongs to a used unit of a project with namespaces"
+    if g("ns_name") == "none" and g("id") == "ns" and any(g(d) not in (None, e) for d, e in EMPTY_VALUES.items()):
+        return "in a project with namespaces every used unit has a namespace name"
+    if g("ns_name") == "none" and g("mix") in ("namespaces", "both"):
+        return "a namespace name belongs to a used unit of a project with namespaces"
     if v.get("units") == "1" and v.get("hist") == "mixed":
         return "mixed history needs two units"
     if v.get("units") == "1" and v.get("mix") in ("namespaces", "both"):
@@ -205,6 +212,7 @@ class Plan:
         t["eager_place"] = {("nested_component" if c.isupper() else "page_body") for c, _ in eager} or {"none"}
         t["lazy_macro"] = ({"td"} if req["in"] else set()) | ({"t"} if req.get("ctx") else set()) or {"none"}
         t["wrap"] = {DIMS["wrap"][req.get("wrap", 0)]}
+        t["ns_name"] = {("dashed" if "-" in u[0] else "identifier") for u in used if u[0]} or {"none"}
         t["table_size"] = {("0" if self.size[u] == 0 else "1" if self.size[u] == 1 else "2+") for u in used} or {"none"}
         after = {"seen": seen_before | used | out_units, "first_outside": first_outside, "prev": used}
         return t, after
@@ -484,7 +492,9 @@ def one_project(ctx, exe_tables, proj, tag, n_random, covered, cap):
         if line == "PANIC":
             panics.append(meta)
             continue
-        _, hx, rx = line.split(" ")
+        _, hx, rx, ids = line.split(" ")
+        meta["client_deserializer"] = ids if ids in ("ok", "unparsed") else [
+            (x.split(":")[0], bytes.fromhex(x.split(":")[1][1:]).decode("utf-8", "replace")) for x in ids.split(",")]
         html = bytes.fromhex(hx[1:]).decode("utf-8", errors="replace")
         raw = bytes.fromhex(rx[1:]).decode("utf-8", errors="replace")
         body, rest = sc.extract_script(html)
@@ -546,6 +556,7 @@ def run(ctx):
     disagree = [m for m, c in zip(metas, codes) if c % 10 == 2]
     oracle_mismatch = [m for m, c in zip(metas, codes) if (c // 10 == 1) != m["python_decode_ok"]]
     not_intact = [m for m in metas if not m["embedded_intact"]]
+    rejected_ids = [m for m in metas if isinstance(m.get("client_deserializer"), list)]
     known = [f for f in core.load_known("C17") if f.get("status") == "known"]
     if bad_spec:
         bad_spec.sort(key=lambda m: (len(m["used_units"]), m["position_in_process"],
@@ -571,6 +582,13 @@ def run(ctx):
             core.known_finding(ctx, f, "embedded translations are not escaped: %r" % first["offending_strings"][:1])
         else:
             core.violation(ctx, "spec", {"failing_input": first, "count": len(bad_spec)})
+    elif rejected_ids:
+        rejected_ids.sort(key=lambda m: (len(m["used_units"]), m["position_in_process"]))
+        first = dict(rejected_ids[0])
+        first["explanation"] = ("the hydrating client reads every unit's `locale` and `id` through the Deserialize impls of the "
+                                "generated Locale / unit-id types: the values listed in client_deserializer are rejected, so the "
+                                "embedded translations cannot be loaded")
+        core.violation(ctx, "spec", {"failing_input": first, "count": len(rejected_ids)})
     elif panics:
         core.violation(ctx, "panic", {"failing_input": panics[0], "explanation": "rendering the provider panicked"})
     elif disagree or oracle_mismatch or not_intact or not ok:
@@ -607,7 +625,9 @@ def run(ctx):
         "evaluations": len(metas), "distinct_nontrivial": len(nontrivial),
         "pairwise_coverage": pw,
         "rule": "per run six (thorough: twelve) generated projects compiled with load_locales!() under dynamic_load+ssr: random "
-                "ones with namespaces (string ids) and without (null id), 1-3 (4) locales, nested subkeys, defaulted keys, strings "
+                "ones with namespaces (string ids; names that are not identifiers: `user-profile`, `a-b-c`, next to identifier names; "
+                "leading-digit names are rejected by the macro's configuration parser, names that collide after `-` -> `_` do not "
+                "compile, so neither is generated) and without (null id), 1-3 (4) locales, nested subkeys, defaulted keys, strings "
                 "from the adversarial pool, and three class-matrix projects in which every class of text (quote, backslash, C0, C1, "
                 "NBSP, zero-width, U+2028/9, astral, combining, empty, </script>, <!--) is the first, a middle and the last string of "
                 "some unit; namespaces and locales whose units have an empty string table (interpolation-only and numeric "
@@ -625,12 +645,14 @@ def run(ctx):
         "traces_validated_against_impl": len(metas),
         "disagreements": len(disagree), "spec_failures_on_impl": len(bad_spec),
         "decoder_mismatch_coq_vs_python": len(oracle_mismatch), "script_differs_from_to_array": len(not_intact),
+        "unit_ids_rejected_by_the_client_deserializer": len(rejected_ids),
         "panics": len(panics), "input_distribution": hist, "audit_problems": problems,
     }, assumptions=[
         "the JavaScript engine is replaced by the JSON grammar (Coq decoder, Python json as a second opinion) and the HTML "
         "tokenizer's script-data end rule",
         "expected units are the parser's string tables (tied to the translation sources by C11)",
-        "the hydrate-side init_translations (wasm only) is not executed",
+        "the hydrate-side init_translations (wasm only) is not executed; its first step, the Deserialize impls of the generated "
+        "Locale and unit-id types, is run natively on every unit of every script (serde_json::from_value)",
         "a page whose context is made with the plain provide_i18n_context()/init_i18n_context() functions and no "
         "<I18nContextProvider> has no embedded script at all (only the component embeds one): outside the property"])
 
